@@ -54,6 +54,15 @@ def Config.live (c : Config) : Bool :=
   (futIds c.prog).all (fun id => c.workers.any (fun w => w.contains id)) &&
   ((numbered c.prog 0).map (·.1) == List.range c.prog.length)
 
+/-- the part of the side conditions every liveness statement needs: a subscriber exists, futures get completed -/
+def Config.basic (c : Config) : Bool :=
+  !c.drive.isEmpty && (futIds c.prog).all (fun id => c.workers.any (fun w => w.contains id))
+
+theorem Config.live_basic {c : Config} (h : c.live = true) : c.basic = true := by
+  simp only [Config.live, Bool.and_eq_true] at h
+  simp only [Config.basic, Bool.and_eq_true]
+  exact ⟨h.1.1.1.1, h.1.2⟩
+
 structure LiveInv (c : Config) (s : Sys) : Prop where
   heapSub : ∀ e ∈ s.mb.heap, e ∈ s.sent
   heapGe : ∀ e ∈ s.mb.heap, minNext s.mb.subs ≤ e.1
@@ -74,7 +83,7 @@ theorem deliver_futHead (fd : List Nat) (msgs g : List Msg) :
       · exact ih _
       · intro p h; simp at h; exact ⟨id, v, r, h.symm⟩
 
-theorem LiveInv.init {c : Config} (hl : c.live = true) : LiveInv c (init c) := by
+theorem LiveInv.init {c : Config} (hl : c.basic = true) : LiveInv c (init c) := by
   refine ⟨by intro e he; simp [Mailbox.init] at he, by intro e he; simp [Mailbox.init] at he, ?_, ?_⟩
   · intro r hr p hp
     simp only [Mailbox.init, List.mem_map] at hr
@@ -82,8 +91,8 @@ theorem LiveInv.init {c : Config} (hl : c.live = true) : LiveInv c (init c) := b
     simp at hp
   · intro id hid
     right
-    simp only [Config.live, Bool.and_eq_true, List.all_eq_true, List.any_eq_true, List.contains_iff_mem] at hl
-    obtain ⟨w, hw, hm⟩ := hl.1.2 id hid
+    simp only [Config.basic, Bool.and_eq_true, List.all_eq_true, List.any_eq_true, List.contains_iff_mem] at hl
+    obtain ⟨w, hw, hm⟩ := hl.2 id hid
     exact ⟨w, by simpa [Mailbox.init] using hw, by simpa using hm⟩
 
 theorem LiveInv.step {c : Config} {s s' : Sys} {t : ThreadId} (hv : c.valid = true) (hinv : Inv s) (hp : ProgInv c s)
@@ -246,7 +255,7 @@ theorem LiveInv.step {c : Config} {s s' : Sys} {t : ThreadId} (hv : c.valid = tr
     simp only [Mailbox.step, stepKiller, hp.noKill] at hs
     simp at hs
 
-theorem LiveInv.reachable {c : Config} {s : Sys} (hv : c.valid = true) (hl : c.live = true) (h : Reachable c s) :
+theorem LiveInv.reachable {c : Config} {s : Sys} (hv : c.valid = true) (hl : c.basic = true) (h : Reachable c s) :
     LiveInv c s := by
   induction h with
   | init => exact LiveInv.init hl
@@ -497,25 +506,85 @@ theorem heap_empty_of_all_blocked {c : Config} {s : Sys} (hv : c.valid = true) (
     rw [← hinv.mb.heapEq sub.next (by omega), ← hasNum_iff_getMsg, hw] at hsome
     cases hsome
 
-theorem deadlock_free_core {c : Config} {s : Sys} (hv : c.valid = true) (hl : c.live = true) (h : Reachable c s)
-    (hstuck : ∀ t, step s t = none) : s.final = true := by
+/-- sender blocked on `_write_condition` while every subscriber is blocked: impossible (in-order numbering, capacity ≥ 1) -/
+theorem write_contra_inorder {c : Config} {s : Sys} (hv : c.valid = true) (hl : c.live = true) (h : Reachable c s)
+    (hnd : s.spc ≠ .done) (hblk : ∀ (i : Nat) (sub : Sub), s.mb.subs[i]? = some sub → sub.flag = some false)
+    (hwf : s.mb.writeFlag = some false) : False := by
   have hinv := Inv.reachable h
   have hp := ProgInv.reachable hv h
-  have hli := LiveInv.reachable hv hl h
+  have hli := LiveInv.reachable hv (Config.live_basic hl) h
   have hstat := Static.reachable h
-  obtain ⟨hok, _, _, hltK⟩ := valid_parts hv
+  have hl' := hl
   simp only [Config.live, Bool.and_eq_true, Bool.not_eq_true', bne_iff_ne, ne_eq, Bool.or_eq_true, beq_iff_eq,
-    List.isEmpty_eq_false_iff] at hl
-  obtain ⟨⟨⟨⟨hdrive, hcap⟩, hdrv⟩, _⟩, _⟩ := hl
-  have hl : c.live = true := by
-    simp only [Config.live, Bool.and_eq_true, Bool.not_eq_true', bne_iff_ne, ne_eq, Bool.or_eq_true, beq_iff_eq,
-      List.isEmpty_eq_false_iff]
-    exact ⟨⟨⟨⟨hdrive, hcap⟩, hdrv⟩, by assumption⟩, by assumption⟩
+    List.isEmpty_eq_false_iff] at hl'
+  obtain ⟨⟨⟨⟨hdrive, hcap⟩, _⟩, _⟩, _⟩ := hl'
   have e1 : s.mb.cap = c.cap := congrArg (fun x => x.1) hstat
+  have e4 : s.mb.subs.map (fun x => x.canDrive) = c.drive := congrArg (fun x => x.2.2.2) hstat
+  have hne : s.mb.subs ≠ [] := by
+    intro hnil; rw [hnil] at e4; exact hdrive e4.symm
+  have hheap := heap_empty_of_all_blocked hv hl hinv hp hli hnd hne hblk
+  have hcw := hinv.mb.wakeW hwf
+  simp only [MB.canWrite, hheap, hp.killed, Bool.or_false, List.length_nil] at hcw
+  cases hc : s.mb.cap with
+  | none => simp [hc] at hcw
+  | some cp =>
+    simp only [hc, decide_eq_false_iff_not, Nat.not_lt, Nat.le_zero_eq] at hcw
+    subst hcw; rw [e1] at hc; exact hcap hc
+
+/-- lazy sender blocked on `_fetch_new_condition` while every subscriber is blocked: impossible when a driver exists -/
+theorem gate_contra_inorder {c : Config} {s : Sys} (hv : c.valid = true) (hl : c.live = true) (h : Reachable c s)
+    (hspc : s.spc = .gate) (hblk : ∀ (i : Nat) (sub : Sub), s.mb.subs[i]? = some sub → sub.flag = some false)
+    (hff : s.mb.fetchFlag = some false) : False := by
+  have hinv := Inv.reachable h
+  have hp := ProgInv.reachable hv h
+  have hli := LiveInv.reachable hv (Config.live_basic hl) h
+  have hstat := Static.reachable h
+  have hl' := hl
+  simp only [Config.live, Bool.and_eq_true, Bool.not_eq_true', bne_iff_ne, ne_eq, Bool.or_eq_true, beq_iff_eq,
+    List.isEmpty_eq_false_iff] at hl'
+  obtain ⟨⟨⟨⟨hdrive, _⟩, hdrv⟩, _⟩, _⟩ := hl'
   have e2 : s.mb.lazy = c.lazy := congrArg (fun x => x.2.1) hstat
   have e4 : s.mb.subs.map (fun x => x.canDrive) = c.drive := congrArg (fun x => x.2.2.2) hstat
   have hne : s.mb.subs ≠ [] := by
     intro hnil; rw [hnil] at e4; exact hdrive e4.symm
+  have hnd : s.spc ≠ .done := by simp [hspc]
+  have hheap := heap_empty_of_all_blocked hv hl hinv hp hli hnd hne hblk
+  have hcf := hinv.mb.wakeF hff
+  have hlazy : c.lazy = true := by rw [← e2]; exact hinv.gateLazy hspc
+  have hdr : c.drive.contains true = true := by
+    rcases hdrv with hx | hx
+    · rw [hlazy] at hx; cases hx
+    · exact hx
+  have hdw : s.mb.driverWaits = true := by
+    rw [← e4] at hdr
+    simp only [List.contains_iff_mem, List.mem_map] at hdr
+    obtain ⟨sub, hm, hcd⟩ := hdr
+    obtain ⟨i, hi1, hi2⟩ := List.getElem_of_mem hm
+    have hi : s.mb.subs[i]? = some sub := by rw [List.getElem?_eq_getElem hi1, hi2]
+    have hw := hinv.mb.waitFor i sub hi
+    rw [hblk i sub hi] at hw
+    simp only [MB.driverWaits, List.any_eq_true, Bool.and_eq_true]
+    exact ⟨sub, hm, hcd, by rw [hw]; simp⟩
+  have hst : s.mb.staleWaiter = false := by
+    simp only [MB.staleWaiter, hheap, List.any_eq_false]
+    intro sub _
+    cases sub.waitingFor with
+    | none => simp [staleTest]
+    | some x => cases s.mb.gateRule <;> simp [staleTest, hasNum]
+  simp [MB.canFetch, hp.killed, hst, hdw] at hcf
+
+/-- the skeleton of every deadlock-freedom proof: in a valid run, if the sender cannot be blocked for ever
+on its two conditions while all subscribers are blocked (`hW`, `hG`), a state without enabled thread is final -/
+theorem deadlock_free_gen {c : Config} {s : Sys} (hv : c.valid = true) (hb : c.basic = true) (h : Reachable c s)
+    (hW : s.spc ≠ .done → (∀ (i : Nat) (sub : Sub), s.mb.subs[i]? = some sub → sub.flag = some false) →
+      s.mb.writeFlag = some false → False)
+    (hG : s.spc = .gate → (∀ (i : Nat) (sub : Sub), s.mb.subs[i]? = some sub → sub.flag = some false) →
+      s.mb.fetchFlag = some false → False)
+    (hstuck : ∀ t, step s t = none) : s.final = true := by
+  have hinv := Inv.reachable h
+  have hp := ProgInv.reachable hv h
+  have hli := LiveInv.reachable hv hb h
+  obtain ⟨hok, _, _, hltK⟩ := valid_parts hv
   -- workers have nothing left
   have hwork : ∀ w ∈ s.workers, w = [] := by
     intro w hw
@@ -569,54 +638,14 @@ theorem deadlock_free_core {c : Config} {s : Sys} (hv : c.valid = true) (hl : c.
       have hmem : Msg.stop ∈ inOrder s.sent sub.next := by rw [← hd]; simp
       obtain ⟨j, hj⟩ := mem_inOrder hmem
       exact no_stop_sent hv hp hnd _ hj rfl
-  have hwrite_contra : s.spc ≠ .done → s.mb.writeFlag = some false → False := by
-    intro hnd hwf
-    have hheap := heap_empty_of_all_blocked hv hl hinv hp hli hnd hne (hallblk hnd)
-    have hcw := hinv.mb.wakeW hwf
-    simp only [MB.canWrite, hheap, hp.killed, Bool.or_false, List.length_nil] at hcw
-    cases hc : s.mb.cap with
-    | none => simp [hc] at hcw
-    | some cp =>
-      simp only [hc, decide_eq_false_iff_not, Nat.not_lt, Nat.le_zero_eq] at hcw
-      subst hcw; rw [e1] at hc; exact hcap hc
   simp only [Sys.final, Bool.and_eq_true, List.all_eq_true]
   cases hspc : s.spc with
   | fetch => rw [hspc] at hsender; exact absurd hsender id
   | exc e => rw [hspc] at hsender; exact absurd hsender id
-  | send num m => rw [hspc] at hsender; exact absurd (hwrite_contra (by simp [hspc]) hsender) id
-  | close => rw [hspc] at hsender; exact absurd (hwrite_contra (by simp [hspc]) hsender) id
+  | send num m => rw [hspc] at hsender; exact absurd (hW (by simp [hspc]) (hallblk (by simp [hspc])) hsender) id
+  | close => rw [hspc] at hsender; exact absurd (hW (by simp [hspc]) (hallblk (by simp [hspc])) hsender) id
   | dead e => have := hp.pc; simp [progPc, hspc] at this
-  | gate =>
-    exfalso
-    rw [hspc] at hsender
-    simp only at hsender
-    have hnd : s.spc ≠ .done := by simp [hspc]
-    have hblk := hallblk hnd
-    have hheap := heap_empty_of_all_blocked hv hl hinv hp hli hnd hne hblk
-    have hcf := hinv.mb.wakeF hsender
-    have hlazy : c.lazy = true := by rw [← e2]; exact hinv.gateLazy hspc
-    have hdr : c.drive.contains true = true := by
-      rcases hdrv with hx | hx
-      · rw [hlazy] at hx; cases hx
-      · exact hx
-    -- some driving subscriber is blocked, hence registered in `waiting_for`
-    have hdw : s.mb.driverWaits = true := by
-      rw [← e4] at hdr
-      simp only [List.contains_iff_mem, List.mem_map] at hdr
-      obtain ⟨sub, hm, hcd⟩ := hdr
-      obtain ⟨i, hi1, hi2⟩ := List.getElem_of_mem hm
-      have hi : s.mb.subs[i]? = some sub := by rw [List.getElem?_eq_getElem hi1, hi2]
-      have hw := hinv.mb.waitFor i sub hi
-      rw [hblk i sub hi] at hw
-      simp only [MB.driverWaits, List.any_eq_true, Bool.and_eq_true]
-      exact ⟨sub, hm, hcd, by rw [hw]; simp⟩
-    have hst : s.mb.staleWaiter = false := by
-      simp only [MB.staleWaiter, hheap, List.any_eq_false]
-      intro sub _
-      cases sub.waitingFor with
-      | none => simp [staleTest]
-      | some x => cases s.mb.gateRule <;> simp [staleTest, hasNum]
-    simp [MB.canFetch, hp.killed, hst, hdw] at hcf
+  | gate => rw [hspc] at hsender; exact absurd (hG hspc (hallblk (by simp [hspc])) hsender) id
   | done =>
     refine ⟨⟨⟨by simp [SPc.finished], ?_⟩, ?_⟩, ?_⟩
     · intro r hrm
@@ -666,5 +695,10 @@ theorem deadlock_free_core {c : Config} {s : Sys} (hv : c.valid = true) (hl : c.
       · simp [hpc, RPc.finished]
     · intro w hw; simp [hwork w hw]
     · intro k hk; rw [hp.noKill] at hk; cases hk
+
+
+theorem deadlock_free_core {c : Config} {s : Sys} (hv : c.valid = true) (hl : c.live = true) (h : Reachable c s)
+    (hstuck : ∀ t, step s t = none) : s.final = true :=
+  deadlock_free_gen hv (Config.live_basic hl) h (write_contra_inorder hv hl h) (gate_contra_inorder hv hl h) hstuck
 
 end Strax.Mailbox
